@@ -304,7 +304,7 @@ impl Sys for PoolSlotSys {
                 o
             }
             Op::Standstill => w.pool.standstill(),
-            Op::Wait(s) => {
+            Op::Wait(s) | Op::WaitAbandoned(s) => {
                 let _ = w.pool.pool.wait_for_parent_ready(Slot::new(*s));
                 Out::default()
             }
@@ -531,7 +531,7 @@ fn trigger_class(op: &Op, own: usize) -> String {
         Op::Cert(c) => format!("cert-{:?}", c.kind),
         Op::Block { .. } => "block".into(),
         Op::Standstill => "standstill".into(),
-        Op::Wait(_) => "wait".into(),
+        Op::Wait(_) | Op::WaitAbandoned(_) => "wait".into(),
     }
 }
 
